@@ -26,7 +26,7 @@ import (
 func init() {
 	Registry["C03"] = RunC03
 	Metas["C03"] = Meta{
-		Rule: "episode = a stream of 1..3 valid requests (query, cookies, Range/If-Modified-Since on a static-file route incl. an empty file, multipart form, chunked+Trailer, bodies around the configured limit) with 1..4 structure-aware mutations (byte flip/insert/delete/duplicate at method, target, version, header name, colon, value, CR, LF, chunk-size, chunk CRLF, trailer; hostile tokens spliced into Trailer/target/Cookie/Range/date/boundary/Content-Length), optional truncation + FIN/RST at any offset, delivered under seeded fragmentation to the real server (with and without recovery middleware, buffered and streaming); a probe handler runs every request-side parser on what arrived. Oracles: no panic escapes Engine.Serve; everything written is a sequence of complete well-formed responses; a parse-level rejection is exactly one 4xx with Connection: close, no handler, nothing after it, connection closed; body over the limit in buffered mode is always rejected. Non-trivial: >= 1 mutation or fault applied; distinct = abstract signature (mutation kinds x positions classes x outcome). Added later: a route-table mode (trailing-slash and fixed-path redirects, X-Forwarded-Prefix and request paths around the 128-byte stack buffer of CleanPath), a huge-body mode (default limit, one body around/above 512 KiB), obs-folded Trailer values, trailer names that read like a last-chunk line with reads ending 1 and 2 bytes into the trailer section, and the oracle that a non-numeric Content-Length without Transfer-Encoding is answered with 400.",
+		Rule: "episode = a stream of 1..3 valid requests (query, cookies, Range/If-Modified-Since on a static-file route incl. an empty file, multipart form, chunked+Trailer, bodies around the configured limit) with 1..4 structure-aware mutations (byte flip/insert/delete/duplicate at method, target, version, header name, colon, value, CR, LF, chunk-size, chunk CRLF, trailer; hostile tokens spliced into Trailer/target/Cookie/Range/date/boundary/Content-Length), optional truncation + FIN/RST at any offset, delivered under seeded fragmentation to the real server (with and without recovery middleware, buffered and streaming); a probe handler runs every request-side parser on what arrived. Oracles: no panic escapes Engine.Serve; everything written is a sequence of complete well-formed responses; a parse-level rejection is exactly one 4xx with Connection: close, no handler, nothing after it, connection closed; body over the limit in buffered mode is always rejected. Non-trivial: >= 1 mutation or fault applied; distinct = abstract signature (mutation kinds x positions classes x outcome). Added later: a route-table mode (trailing-slash and fixed-path redirects, X-Forwarded-Prefix and request paths around the 128-byte stack buffer of CleanPath), a huge-body mode (default limit, one body around/above 512 KiB), obs-folded Trailer values, trailer names that read like a last-chunk line with reads ending 1 and 2 bytes into the trailer section, and the oracle that a non-numeric Content-Length without Transfer-Encoding is answered with 400. Later still: hostile Connection lists on HTTP/1.0 and HTTP/1.1 requests and responses.",
 		Real: []string{"http1.Server.Serve/writeErrorResponse", "route.Engine.ServeHTTP", "req header/body parsers", "protocol.URI/Args/Cookie/Trailer/multipart parsers", "app.FS handler (ParseByteRange, ParseHTTPDate)", "recovery middleware", "standard.Conn"},
 		Stub: []string{"TCP (SimConn)", "peer (scripted actor)", "transporter accept loop (stub)", "clock (synctest)", "file system: real directory tree, no fault injection"},
 		Assumptions: []string{
